@@ -1,7 +1,7 @@
 /-
 C04 interleaving layer: machinery for checking an inductive invariant given as an explicit table.
 
-For each of the 96 configurations `Proofs/C04_RaceTable.lean` lists the (mixed-radix) codes of the
+For each of the 144 configurations `Proofs/C04_RaceTable.lean` lists the (mixed-radix) codes of the
 reachable states of `Model/C04_Race.lean`. Nothing about the table is trusted: `checkCfg` (evaluated
 by the kernel in `Proofs/C04_RaceCheck*.lean`) verifies that the decoded table contains the initial
 state and is closed under both threads' steps, and evaluates the safety predicates on every member.
@@ -17,12 +17,12 @@ def encPre : Pre → Nat | .absent => 0 | .good => 1 | .corrupt => 2
 def decPre : Nat → Pre | 0 => .absent | 1 => .good | _ => .corrupt
 def encPOp : POp → Nat | .touch => 0 | .put => 1
 def decPOp : Nat → POp | 0 => .touch | _ => .put
-def encTOp : TOp → Nat | .del => 0 | .ti => 1
-def decTOp : Nat → TOp | 0 => .del | _ => .ti
+def encTOp : TOp → Nat | .del => 0 | .ti => 1 | .untrash => 2
+def decTOp : Nat → TOp | 0 => .del | 1 => .ti | _ => .untrash
 def encLoc : Loc → Nat | .none => 0 | .blk => 1 | .tmp => 2 | .trash => 3 | .gone => 4
 def decLoc : Nat → Loc | 0 => .none | 1 => .blk | 2 => .tmp | 3 => .trash | _ => .gone
-def encOI : Option Ino → Nat | none => 0 | some .a => 1 | some .b => 2
-def decOI : Nat → Option Ino | 0 => none | 1 => some .a | _ => some .b
+def encOI : Option Ino → Nat | none => 0 | some .a => 1 | some .b => 2 | some .x => 3
+def decOI : Nat → Option Ino | 0 => none | 1 => some .a | 2 => some .b | _ => some .x
 def encOT : Option Thr → Nat | none => 0 | some .p => 1 | some .t => 2
 def decOT : Nat → Option Thr | 0 => none | 1 => some .p | _ => some .t
 def encPPC : PPC → Nat
@@ -34,34 +34,39 @@ def decPPC : Nat → PPC
   | 8 => .wMkdir | 9 => .wTemp | 10 => .wLock | 11 => .wCopy | 12 => .wClose | 13 => .wChtimes | 14 => .wOpenOld
   | 15 => .wFlockOld | 16 => .wRename | _ => .done
 def encTPC : TPC → Nat
-  | .iMtime => 0 | .dLock => 1 | .dOpen => 2 | .dFlock => 3 | .dStat => 4 | .dRemove => 5 | .dRename => 6 | .done => 7
+  | .iMtime => 0 | .dLock => 1 | .dOpen => 2 | .dFlock => 3 | .dStat => 4 | .dRemove => 5 | .dRename => 6
+  | .uReadDir => 7 | .uRename => 8 | .uChtimes => 9 | .done => 10
 def decTPC : Nat → TPC
-  | 0 => .iMtime | 1 => .dLock | 2 => .dOpen | 3 => .dFlock | 4 => .dStat | 5 => .dRemove | 6 => .dRename | _ => .done
+  | 0 => .iMtime | 1 => .dLock | 2 => .dOpen | 3 => .dFlock | 4 => .dStat | 5 => .dRemove | 6 => .dRename
+  | 7 => .uReadDir | 8 => .uRename | 9 => .uChtimes | _ => .done
 def encPRes : PRes → Nat | .none => 0 | .okTouch => 1 | .okWrite => 2 | .notFound => 3
 def decPRes : Nat → PRes | 0 => .none | 1 => .okTouch | 2 => .okWrite | _ => .notFound
-def encTRes : TRes → Nat | .none => 0 | .skipped => 1 | .notFound => 2 | .kept => 3 | .trashed => 4 | .failed => 5
-def decTRes : Nat → TRes | 0 => .none | 1 => .skipped | 2 => .notFound | 3 => .kept | 4 => .trashed | _ => .failed
+def encTRes : TRes → Nat | .none => 0 | .skipped => 1 | .notFound => 2 | .kept => 3 | .trashed => 4 | .failed => 5 | .restored => 6
+def decTRes : Nat → TRes
+  | 0 => .none | 1 => .skipped | 2 => .notFound | 3 => .kept | 4 => .trashed | 5 => .failed | _ => .restored
 
 /-- mixed-radix code of a state (least significant field first) -/
 def code : St → Nat
-  | ⟨⟨ser, l0, pre, old, pop, top⟩, pcP, pcT, locA, locB, aT, fdP, fdT, fA, fB, mu, wP, wT, rP, rT⟩ =>
-    encB ser + 2 * (encB l0 + 2 * (encPre pre + 3 * (encB old + 2 * (encPOp pop + 2 * (encTOp top + 2 * (
-    encPPC pcP + 18 * (encTPC pcT + 8 * (encLoc locA + 5 * (encLoc locB + 5 * (encB aT + 2 * (
-    encOI fdP + 3 * (encOI fdT + 3 * (encOT fA + 3 * (encOT fB + 3 * (encOT mu + 3 * (
-    encB wP + 2 * (encB wT + 2 * (encPRes rP + 4 * encTRes rT))))))))))))))))))
+  | ⟨⟨ser, l0, pre, old, pop, top⟩, pcP, pcT, locA, locB, locX, aT, xT, fdP, fdT, fA, fB, fX, mu, wP, wT, rP, rT⟩ =>
+    encB ser + 2 * (encB l0 + 2 * (encPre pre + 3 * (encB old + 2 * (encPOp pop + 2 * (encTOp top + 3 * (
+    encPPC pcP + 18 * (encTPC pcT + 11 * (encLoc locA + 5 * (encLoc locB + 5 * (encLoc locX + 5 * (encB aT + 2 * (
+    encB xT + 2 * (encOI fdP + 4 * (encOI fdT + 4 * (encOT fA + 3 * (encOT fB + 3 * (encOT fX + 3 * (encOT mu + 3 * (
+    encB wP + 2 * (encB wT + 2 * (encPRes rP + 4 * encTRes rT)))))))))))))))))))))
 
 def decode (n : Nat) : St :=
   let n0 := n
-  let n1 := n0 / 2; let n2 := n1 / 2; let n3 := n2 / 3; let n4 := n3 / 2; let n5 := n4 / 2; let n6 := n5 / 2
-  let n7 := n6 / 18; let n8 := n7 / 8; let n9 := n8 / 5; let n10 := n9 / 5; let n11 := n10 / 2
-  let n12 := n11 / 3; let n13 := n12 / 3; let n14 := n13 / 3; let n15 := n14 / 3; let n16 := n15 / 3
-  let n17 := n16 / 2; let n18 := n17 / 2; let n19 := n18 / 4
+  let n1 := n0 / 2; let n2 := n1 / 2; let n3 := n2 / 3; let n4 := n3 / 2; let n5 := n4 / 2; let n6 := n5 / 3
+  let n7 := n6 / 18; let n8 := n7 / 11; let n9 := n8 / 5; let n10 := n9 / 5; let n11 := n10 / 5
+  let n12 := n11 / 2; let n13 := n12 / 2; let n14 := n13 / 4; let n15 := n14 / 4; let n16 := n15 / 3
+  let n17 := n16 / 3; let n18 := n17 / 3; let n19 := n18 / 3; let n20 := n19 / 2; let n21 := n20 / 2
+  let n22 := n21 / 4
   { cfg := { serialize := decB (n0 % 2), life0 := decB (n1 % 2), pre := decPre (n2 % 3), ageOld := decB (n3 % 2),
-             pop := decPOp (n4 % 2), top := decTOp (n5 % 2) }
-    pcP := decPPC (n6 % 18), pcT := decTPC (n7 % 8), locA := decLoc (n8 % 5), locB := decLoc (n9 % 5)
-    aTouched := decB (n10 % 2), fdP := decOI (n11 % 3), fdT := decOI (n12 % 3), flockA := decOT (n13 % 3)
-    flockB := decOT (n14 % 3), mutex := decOT (n15 % 3), waitP := decB (n16 % 2), waitT := decB (n17 % 2)
-    resP := decPRes (n18 % 4), resT := decTRes (n19 % 6) }
+             pop := decPOp (n4 % 2), top := decTOp (n5 % 3) }
+    pcP := decPPC (n6 % 18), pcT := decTPC (n7 % 11), locA := decLoc (n8 % 5), locB := decLoc (n9 % 5)
+    locX := decLoc (n10 % 5), aTouched := decB (n11 % 2), xTouched := decB (n12 % 2)
+    fdP := decOI (n13 % 4), fdT := decOI (n14 % 4), flockA := decOT (n15 % 3), flockB := decOT (n16 % 3)
+    flockX := decOT (n17 % 3), mutex := decOT (n18 % 3), waitP := decB (n19 % 2), waitT := decB (n20 % 2)
+    resP := decPRes (n21 % 4), resT := decTRes (n22 % 7) }
 
 /-- evaluate `n` to a numeral before using it -/
 def forceNat {α : Type} (n : Nat) (k : Nat → α) : α := match n with | 0 => k 0 | m+1 => k (m+1)
@@ -71,8 +76,8 @@ theorem forceNat_eq {α : Type} (n : Nat) (k : Nat → α) : forceNat n k = k n 
 /-- evaluate `s` to constructor form before using it -/
 def withForced {α : Type} (s : St) (k : St → α) : α :=
   match s with
-  | ⟨⟨ser, l0, pre, old, pop, top⟩, pcP, pcT, locA, locB, aT, fdP, fdT, fA, fB, mu, wP, wT, rP, rT⟩ =>
-    k ⟨⟨ser, l0, pre, old, pop, top⟩, pcP, pcT, locA, locB, aT, fdP, fdT, fA, fB, mu, wP, wT, rP, rT⟩
+  | ⟨⟨ser, l0, pre, old, pop, top⟩, pcP, pcT, locA, locB, locX, aT, xT, fdP, fdT, fA, fB, fX, mu, wP, wT, rP, rT⟩ =>
+    k ⟨⟨ser, l0, pre, old, pop, top⟩, pcP, pcT, locA, locB, locX, aT, xT, fdP, fdT, fA, fB, fX, mu, wP, wT, rP, rT⟩
 
 theorem withForced_eq {α : Type} (s : St) (k : St → α) : withForced s k = k s := rfl
 
@@ -123,12 +128,15 @@ def rankP : PPC → Nat
   | .tChtimes => 10 | .wMkdir => 9 | .wTemp => 8 | .wLock => 7 | .wCopy => 6 | .wClose => 5 | .wChtimes => 4
   | .wOpenOld => 3 | .wFlockOld => 2 | .wRename => 1 | .done => 0
 def rankT : TPC → Nat
-  | .iMtime => 7 | .dLock => 6 | .dOpen => 5 | .dFlock => 4 | .dStat => 3 | .dRemove => 2 | .dRename => 1 | .done => 0
+  | .iMtime => 7 | .dLock => 6 | .dOpen => 5 | .dFlock => 4 | .dStat => 3 | .dRemove => 2 | .dRename => 1
+  | .uReadDir => 3 | .uRename => 2 | .uChtimes => 1 | .done => 0
 def rank (s : St) : Nat := rankP s.pcP + rankT s.pcT
 
-/-- per-state obligations -/
+/-- per-state obligations. While an untrash is between its Rename and its Chtimes the block path holds
+the restored copy with its OLD timestamp, so for `top = untrash` protection is demanded at quiescence
+only (a Trash running in that window would be a third party: outside this two-thread system). -/
 def okLocal (c : Cfg) (s : St) : Bool :=
-  decide (s.cfg = c) && contract s && ackSafe s
+  decide (s.cfg = c) && contract s && (if c.top = .untrash then (!finished s || ackSafe s) else ackSafe s)
     && (finished s || decide (rank (stepT (stepP s)) < rank s))
 
 def checkCfg (c : Cfg) (R : List Nat) : Bool :=
@@ -166,14 +174,14 @@ theorem checkCfg_run {c : Cfg} {R : List Nat} (h : checkCfg c R = true) :
 
 def cfgGroup (ser l0 : Bool) : List Cfg :=
   [Pre.absent, Pre.good, Pre.corrupt].flatMap fun pre => [false, true].flatMap fun old =>
-  [POp.touch, POp.put].flatMap fun pop => [TOp.del, TOp.ti].map fun top =>
+  [POp.touch, POp.put].flatMap fun pop => [TOp.del, TOp.ti, TOp.untrash].map fun top =>
   { serialize := ser, life0 := l0, pre := pre, ageOld := old, pop := pop, top := top }
 
 def allCfgs : List Cfg :=
   [false, true].flatMap fun ser => [false, true].flatMap fun l0 => cfgGroup ser l0
 
 def cfgIdx (c : Cfg) : Nat :=
-  ((((encB c.serialize * 2 + encB c.life0) * 3 + encPre c.pre) * 2 + encB c.ageOld) * 2 + encPOp c.pop) * 2 + encTOp c.top
+  ((((encB c.serialize * 2 + encB c.life0) * 3 + encPre c.pre) * 2 + encB c.ageOld) * 2 + encPOp c.pop) * 3 + encTOp c.top
 
 theorem mem_cfgGroup (c : Cfg) : c ∈ cfgGroup c.serialize c.life0 := by
   cases c with
